@@ -68,6 +68,14 @@ def make(kind, kwargs, hidden=None):
         return enc(kwargs)
     if t == "float":
         return float(enc(kwargs))
+    if t == "nearfloat":
+        # values that differ between 'versions' only in the 7th significant figure, or (for every third setting) are
+        # tiny in absolute terms and differ by a factor: conflicts that a tolerance-based comparison would wave through
+        v = enc({k: x for k, x in kwargs.items() if k != "version"}) % 1000003 + 1.0
+        ver = int(kwargs.get("version", 0))
+        if int(v) % 3 == 0:
+            return v * 1e-15 * (1 + ver)
+        return v * (1.0 + 3e-7 * ver)
     if t == "intfloat":
         # whole numbers (Python ints) for even 'version', numbers with a fractional part for odd ones: a quantity whose
         # first results happen to be integers and later ones are not
